@@ -297,3 +297,47 @@ func hunkShape(n int) string {
 	}
 	return "multi-hunk"
 }
+
+// Deep returns documents whose interesting part sits below a chain of 3, 5, 6 or 7 object keys
+// (path slices of those lengths have spare capacity, so a path that is appended to without
+// being cloned is overwritten by the next sibling): leaf objects over the keys x,y,z with
+// values 1,2 or absent, and leaf arrays over {1,2} up to length 3.
+func Deep(full bool) *TextSet {
+	return memoize(fmt.Sprintf("Deep-%v", full), func() *TextSet {
+		var leaves []V
+		opts := []V{ref.Void{}, 1.0, 2.0}
+		for _, x := range opts {
+			for _, y := range opts {
+				for _, z := range opts {
+					o := map[string]interface{}{}
+					if !ref.IsVoid(x) {
+						o["x"] = x
+					}
+					if !ref.IsVoid(y) {
+						o["y"] = y
+					}
+					if !ref.IsVoid(z) {
+						o["z"] = z
+					}
+					leaves = append(leaves, o)
+				}
+			}
+		}
+		leaves = append(leaves, gen.Arrays(3, []V{1.0, 2.0})...)
+		depths := []int{3}
+		if full {
+			depths = []int{3, 5, 6, 7}
+		}
+		var out []V
+		for _, d := range depths {
+			for _, l := range leaves {
+				var v V = ref.Clone(l)
+				for i := d - 1; i >= 0; i-- {
+					v = map[string]interface{}{string(rune('a' + i)): v}
+				}
+				out = append(out, v)
+			}
+		}
+		return NewTextSet(out)
+	})
+}
